@@ -5,11 +5,6 @@ EXTENDS DCE, Json, IOUtils, TLC
 
 Cases == JsonDeserialize(IOEnv.CASE_FILE)
 VARIABLE i
-\* ops nested (transitively) in a set of removed ops disappear with them
-RECURSIVE Under(_, _, _)
-Under(g, S, fuel) == IF fuel = 0 THEN S ELSE
-  LET T == S \cup {o \in DOMAIN g.ops : g.regions[g.blocks[g.ops[o].blk].reg].par \in S} IN IF T = S THEN S ELSE Under(g, T, fuel - 1)
-
 Verdict(c) ==
   LET g == c.g
       kept == AsSet(c.kept)
@@ -22,7 +17,9 @@ Verdict(c) ==
         ELSE "ok"
      ELSE \* greedy applier / RemoveUnusedOperations: safety only
         IF ~(removed \subseteq Under(g, RemovableByApplier(g), Len(g.ops))) THEN "RemovesOnlyUnobservableCode"
-        ELSE IF AsSet(c.keptb) # DOMAIN g.blocks THEN "RemovesOnlyUnreachableBlocks" ELSE "ok"
+        \* trivial-dead removal never removes blocks except those that disappear inside a removed (recursive-effect) op
+        ELSE IF AsSet(c.keptb) # {b \in DOMAIN g.blocks : g.regions[g.blocks[b].reg].par = 0 \/ g.regions[g.blocks[b].reg].par \in kept}
+             THEN "RemovesOnlyUnreachableBlocks" ELSE "ok"
 
 Init == i = 0
 Next == /\ i < Len(Cases) /\ i' = i + 1
